@@ -1082,6 +1082,19 @@ func (kcp *KCP) SetMtu(mtu int) int {
 		return -1
 	}
 
+	// a smaller MTU cannot be honoured while larger segments are still queued or in flight:
+	// flush would overrun the (smaller) staging buffer or emit datagrams above the new MTU
+	for seg := range kcp.snd_queue.ForEach {
+		if len(seg.data) > mtu-IKCP_OVERHEAD {
+			return -2
+		}
+	}
+	for seg := range kcp.snd_buf.ForEach {
+		if len(seg.data) > mtu-IKCP_OVERHEAD {
+			return -2
+		}
+	}
+
 	kcp.mtu = uint32(mtu)
 	kcp.mss = kcp.mtu - IKCP_OVERHEAD
 	kcp.buffer = make([]byte, (mtu+IKCP_OVERHEAD)*3)
